@@ -47,6 +47,7 @@ def run(ctx):
                     continue
                 seen.add(h)
                 stim.append({"t": len(stim) + 1, "p": 4, "keepAlive": ka, "maxRetries": mr, "events": json.loads(h)})
+    ngen = len(stim)
     # directed histories: traffic between unanswered pings, late pongs, boundary ticks
     for mr in (1, 2):
         stim.append({"t": len(stim) + 1, "p": 4, "keepAlive": True, "maxRetries": mr, "events": [
@@ -63,6 +64,9 @@ def run(ctx):
                 ev.append({"e": "pong", "g": g, "t": 5 * k + 1})
                 ev += [{"e": "tick", "g": 0, "t": 5 * k + 1 + 5 * j} for j in range(1, mr + 3)]
                 stim.append({"t": len(stim) + 1, "p": 4, "keepAlive": True, "maxRetries": mr, "events": ev})
+    # every 5th history (thorough: every 2nd) and all directed ones also against a real udp server on a loopback socket
+    for k, s_ in enumerate(stim):
+        s_["srv"] = (k % (2 if thorough else 5) == 0) or k >= ngen
     spath = os.path.join(ctx.work, "stimuli.ndjson")
     vf.write_ndjson(spath, stim)
     out = os.path.join(ctx.work, "traces.ndjson")
